@@ -6,6 +6,9 @@
    matrices and the label bookkeeping of _transform_to_normal / _get_normal_samples / sample; they are
    bridged to Model/MatQ.cond_dist_q and Model/CondSample, and the theorems of Spec/CondSampleProofs.v and
    Spec/MatQProofs.v are restated for the generated functions.
+   HISTORY: until /repo commits fa9ce3f and baa4f86 this file held C12_conditions_to_scores_refuted /
+   C12_dict_order_matters (F19) and C12_series_accepted_refuted (F11); after the fixes they are the
+   full-strength theorems C12_conditions_to_scores / C12_condition_order_irrelevant / C12_series_accepted.
    Oracles (section variables): score = norm.ppf(clip(cdf_c(.))), ppf_c, Phi = norm.cdf,
    multivariate_normal (shape only), the ordering used by Index.difference (a permutation). *)
 From Coq Require Import QArith List Arith Bool Lia Permutation.
@@ -74,88 +77,100 @@ Hypothesis columns_nodup : NoDup columns.
 
 Notation smp := (gm_sample V sort score ppf Phi cond_params uncond_params mvn columns).
 
-(* every conditioned column holds the given value in all n rows *)
-Theorem C12_fixed_columns n conds out c v :
-  smp Dict n (Some conds) = Ok out -> In c columns -> lookup c conds = Some v ->
+(* every conditioned column holds the given value in all n rows (dict or Series) *)
+Theorem C12_fixed_columns kind n conds out c v :
+  smp kind n (Some conds) = Ok out -> In c columns -> lookup c conds = Some v ->
   lookup c out = Some (repeat v n).
 Proof. rewrite C12_bridge_sample. now apply cond_fixed_columns. Qed.
 
 (* all training columns, in training order, n rows each *)
-Theorem C12_all_columns_in_order n conds out :
-  smp Dict n (Some conds) = Ok out ->
+Theorem C12_all_columns_in_order kind n conds out :
+  smp kind n (Some conds) = Ok out ->
   map fst out = columns /\ Forall (fun p => length (snd p) = n) out.
 Proof. rewrite C12_bridge_sample. now apply cond_all_columns_in_order. Qed.
 
 (* a free column c is ppf_c(Phi(.)) of THE component of the conditional draw labelled c *)
-Theorem C12_sampled_by_label n conds out c :
-  smp Dict n (Some conds) = Ok out -> In c columns -> lookup c conds = None ->
+Theorem C12_sampled_by_label kind n conds out c :
+  smp kind n (Some conds) = Ok out -> In c columns -> lookup c conds = None ->
   exists nc i col,
     gm_normal_conditions V score columns conds = Ok nc /\
-    nth_error (columns1 V sort columns conds) i = Some c /\
+    nth_error (columns1 V sort columns nc) i = Some c /\
     Forall2 (fun row x => nth_error row i = Some x)
             (draw_of V sort cond_params mvn columns n nc) col /\
     lookup c out = Some (map (fun x => ppf c (Phi x)) col).
 Proof. rewrite C12_bridge_sample, C12_bridge_normal_conditions. now apply cond_sampled_by_label. Qed.
 
-(* success on the quantifier of the property: dict, non-empty, distinct known labels, proper subset *)
-Theorem C12_dict_sample_succeeds n conds :
-  conds <> [] -> NoDup (keys V conds) -> incl (keys V conds) columns ->
-  (exists c, In c columns /\ ~ In c (keys V conds)) ->
-  exists out, smp Dict n (Some conds) = Ok out.
+(* the conditional draw is over exactly the training columns that carry no condition *)
+Theorem C12_free_columns kind n conds out :
+  smp kind n (Some conds) = Ok out ->
+  exists nc, gm_normal_conditions V score columns conds = Ok nc /\
+    forall c, In c (columns1 V sort columns nc) <-> In c columns /\ lookup c conds = None.
+Proof. rewrite C12_bridge_sample, C12_bridge_normal_conditions. now apply cond_free_columns. Qed.
+
+(* success on the quantifier of the property (and beyond): at least one condition on a training column,
+   at least one training column without condition; dict or Series *)
+Theorem C12_sample_succeeds kind n conds :
+  (exists c v, In c columns /\ lookup c conds = Some v) ->
+  (exists c, In c columns /\ lookup c conds = None) ->
+  exists out, smp kind n (Some conds) = Ok out.
 Proof. rewrite C12_bridge_sample. now apply cond_sample_ok. Qed.
 
-(* C12_conditions_to_scores, PARTIAL: with the dict keys listed in training order every score is
-   attached to its own label *)
-Theorem C12_conditions_to_scores_partial conds :
-  conds <> [] -> NoDup (keys V conds) ->
-  keys V conds = conditioned_in_training_order V columns conds ->
-  gm_normal_conditions V score columns conds
-  = Ok (map (fun p => (fst p, score (fst p) (snd p))) conds).
-Proof. rewrite C12_bridge_normal_conditions. now apply cond_scores_by_label_partial. Qed.
-
-(* what the code computes in general: positional relabelling *)
-Theorem C12_conditions_to_scores_actual conds nc :
+(* C12_conditions_to_scores, FULL STRENGTH: the conditioning vector handed to
+   _get_conditional_distribution carries, under every training-column label c with a condition,
+   score_c(value_c) -- for every order in which the conditions are listed -- and nothing else.
+   HISTORY: refuted before /repo commit fa9ce3f (finding F19: the scores, computed in training order,
+   were labelled with the conditions' own key order; witness columns [2;0;1], conditions {0: 7, 2: 5}). *)
+Theorem C12_conditions_to_scores conds nc c :
   gm_normal_conditions V score columns conds = Ok nc ->
-  nc = combine (keys V conds)
-         (flat_map (fun c => match lookup c conds with Some v => [score c v] | None => [] end)
-                   (conditioned_in_training_order V columns conds)).
+  lookup c nc = if mem c columns
+                then match lookup c conds with Some v => Some (score c v) | None => None end
+                else None.
+Proof. rewrite C12_bridge_normal_conditions. now apply cond_scores_by_label. Qed.
+
+(* the labelled scores, explicitly: known labels in training order *)
+Theorem C12_conditions_to_scores_explicit conds nc :
+  gm_normal_conditions V score columns conds = Ok nc ->
+  nc = flat_map (fun c => match lookup c conds with Some v => [(c, score c v)] | None => [] end) columns.
 Proof. rewrite C12_bridge_normal_conditions. now apply normal_conditions_spec. Qed.
 
-(* outside the quantifier of the property: what happens instead of sampling *)
-Theorem C12_unknown_label_raises kind n conds l :
-  NoDup (keys V conds) -> In l (keys V conds) -> ~ In l columns ->
-  smp kind n (Some conds) = Err ValueError_no_arrays \/
-  exists k, (k < length conds)%nat /\
-            smp kind n (Some conds) = Err (ValueError_length_mismatch k (length conds)).
-Proof. rewrite C12_bridge_sample. now apply cond_unknown_label_raises. Qed.
+(* hence the order of the dict / Series is irrelevant for the whole call *)
+Theorem C12_condition_order_irrelevant kind n conds conds' :
+  NoDup (keys V conds) -> Permutation conds conds' ->
+  smp kind n (Some conds) = smp kind n (Some conds').
+Proof. rewrite C12_bridge_sample. now apply cond_dict_order_irrelevant. Qed.
+
+(* C12_series_accepted, FULL STRENGTH: a Series behaves exactly like the dict with the same items.
+   HISTORY: refuted before /repo commit baa4f86 (finding F11: `if conditions and ...` evaluated
+   bool(Series) and raised ValueError for every Series). *)
+Theorem C12_series_accepted n conds : smp Series n (Some conds) = smp Dict n (Some conds).
+Proof. rewrite C12_bridge_sample. now apply cond_series_equivalent. Qed.
+
+(* outside the quantifier of the property *)
+(* a label that is not a training column is silently ignored (before fa9ce3f: ValueError, length mismatch) ... *)
+Theorem C12_unknown_label_ignored kind n conds :
+  smp kind n (Some conds) = smp kind n (Some (filter (fun p => mem (fst p) columns) conds)).
+Proof. rewrite C12_bridge_sample. now apply cond_unknown_label_ignored. Qed.
+
+(* ... unless no label is known (this includes the empty dict): ValueError "need at least one array" *)
+Theorem C12_no_known_label_raises kind n conds :
+  (forall c, In c columns -> lookup c conds = None) ->
+  smp kind n (Some conds) = Err ValueError_no_arrays.
+Proof. rewrite C12_bridge_sample. now apply cond_no_known_label_raises. Qed.
 
 Theorem C12_all_columns_conditioned_raises kind n conds :
   (forall c, In c columns -> In c (keys V conds)) -> forall out, smp kind n (Some conds) <> Ok out.
 Proof. rewrite C12_bridge_sample. now apply cond_all_columns_conditioned_raises. Qed.
 
-(* REFUTED clause "conditions may be given as a pandas Series": every Series raises (F11) *)
-Theorem C12_series_accepted_refuted n conds :
-  columns <> [] -> forall out, smp Series n (Some conds) <> Ok out.
-Proof. rewrite C12_bridge_sample. now apply cond_series_raises. Qed.
+(* .loc is only ever asked for training columns *)
+Theorem C12_no_key_error kind n conds l : smp kind n (Some conds) <> Err (KeyError l).
+Proof. rewrite C12_bridge_sample. now apply cond_no_key_error. Qed.
 End Sample.
 
-(* REFUTED at full strength: "the score attached to label c is score_c(value_c)" fails as soon as the
-   dict lists two keys in an order different from the training order (F19); consequently the order
-   of the dict changes the conditional distribution that is sampled. *)
-Theorem C12_conditions_to_scores_refuted :
-  exists (columns : list label) (conds : list (label * nat)) c v,
-    NoDup columns /\ NoDup (map fst conds) /\ incl (map fst conds) columns /\ In (c, v) conds /\
-    exists nc, gm_normal_conditions nat Demo.score columns conds = Ok nc /\
-               lookup c nc <> Some (Demo.score c v).
-Proof. rewrite C12_bridge_normal_conditions. exact cond_scores_by_label_refuted. Qed.
-
-Theorem C12_dict_order_matters :
-  gm_sample nat isort Demo.score Demo.ppf Demo.Phi cp_reads_scores (Demo.uncond [2;0;1])
-            Demo.mvn [2;0;1] Dict 1 (Some [(2, 5); (0, 7)])
-  <>
-  gm_sample nat isort Demo.score Demo.ppf Demo.Phi cp_reads_scores (Demo.uncond [2;0;1])
-            Demo.mvn [2;0;1] Dict 1 (Some [(0, 7); (2, 5)]).
-Proof. rewrite C12_bridge_sample. exact cond_dict_order_matters. Qed.
+(* the former F19 witness, now in agreement: both orders give every label its own score *)
+Example C12_conditions_to_scores_witness :
+  gm_normal_conditions nat Demo.score [2; 0; 1] [(0, 7); (2, 5)] = Ok [(2, Demo.score 2 5); (0, Demo.score 0 7)] /\
+  gm_normal_conditions nat Demo.score [2; 0; 1] [(2, 5); (0, 7)] = Ok [(2, Demo.score 2 5); (0, Demo.score 0 7)].
+Proof. rewrite C12_bridge_normal_conditions. exact cond_scores_by_label_witness. Qed.
 
 (* ================= evaluation of one conditional-sampling case (correspondence) =================
    Numbers: the normal conditions as the code labels them, the conditional mean / covariance / free
@@ -194,21 +209,22 @@ Example C12_run_case_example :
   out = Ok [(1%nat, [SPpf 1 (SPhi (SDraw 0 1))]); (2%nat, [SCond 2]); (0%nat, [SPpf 0 (SPhi (SDraw 0 0))])].
 Proof. vm_compute. repeat split. Qed.
 
-(* the same conditions listed in the two orders: training order [1;2;0], keys {2,0} -- the code attaches the
-   scores to different labels (F19) *)
+(* the same conditions listed in the two orders: training order [1;2;0], keys {2,0} -- the scores are
+   attached to their own labels, in training order, both times (they were exchanged before fa9ce3f) *)
 Example C12_run_case_order_example :
   let '(nc1, _, _, _, _, _, _) :=
     run_case [1; 2; 0] [[1; 1#2; 0]; [1#2; 1; 0]; [0; 0; 1]]%Q Dict 1 [(2%nat, 5%Q); (0%nat, 6%Q)] [(2%nat, 2%Q); (0%nat, 3%Q)] in
   let '(nc2, _, _, _, _, _, _) :=
-    run_case [1; 2; 0] [[1; 1#2; 0]; [1#2; 1; 0]; [0; 0; 1]]%Q Dict 1 [(0%nat, 6%Q); (2%nat, 5%Q)] [(2%nat, 2%Q); (0%nat, 3%Q)] in
-  nc1 = [(2%nat, (2, 1%positive)); (0%nat, (3, 1%positive))]%Z /\
-  nc2 = [(0%nat, (2, 1%positive)); (2%nat, (3, 1%positive))]%Z.
+    run_case [1; 2; 0] [[1; 1#2; 0]; [1#2; 1; 0]; [0; 0; 1]]%Q Series 1 [(0%nat, 6%Q); (2%nat, 5%Q)] [(2%nat, 2%Q); (0%nat, 3%Q)] in
+  nc1 = [(2%nat, (2, 1%positive)); (0%nat, (3, 1%positive))]%Z /\ nc2 = nc1.
 Proof. vm_compute. split; reflexivity. Qed.
 
 Print Assumptions C12_fixed_columns.
 Print Assumptions C12_all_columns_in_order.
 Print Assumptions C12_sampled_by_label.
-Print Assumptions C12_dict_sample_succeeds.
-Print Assumptions C12_conditions_to_scores_refuted.
-Print Assumptions C12_series_accepted_refuted.
+Print Assumptions C12_sample_succeeds.
+Print Assumptions C12_conditions_to_scores.
+Print Assumptions C12_condition_order_irrelevant.
+Print Assumptions C12_series_accepted.
+Print Assumptions C12_unknown_label_ignored.
 Print Assumptions C12_inverse_checked.
